@@ -888,4 +888,88 @@ func appRelayConcurrentDriver(a *Args) {
 		e.ae.OnStore = nil
 		res.Case(fmt.Sprintf("concurrent:round%d", round), map[string]interface{}{"clients": perRound, "backends": len(bs)})
 	}
+	appRelayStress(e, res, bs)
+}
+
+// appRelayStress: many clients and overlapping agent calls without per-operation events; every client
+// must receive the answer produced for its own request (responses of distinct, recognisable sizes).
+func appRelayStress(e *appEnv, res *hx.Result, bs []appBackend) {
+	nclients, each := 24, 4
+	if hx.Thorough() {
+		nclients, each = 48, 12
+	}
+	hx.Reset("apprelay-stress", "apprelay-stress")
+	for _, b := range bs {
+		e.setLastSeen(b.ID, time.Now())
+	}
+	var wrong, unanswered, total int64
+	var example atomic.Value
+	stop := make(chan struct{})
+	var agents sync.WaitGroup
+	for _, b := range bs {
+		agents.Add(1)
+		go func(b appBackend) {
+			defer agents.Done()
+			var dmu sync.Mutex
+			done := map[string]bool{}
+			for {
+				select {
+				case <-stop:
+					return
+				default:
+				}
+				st, body, _, _ := e.do(e.agPort, "GET", "/agent/pending", agentHdr(b.BackendUser, b.ID, ""), nil, 2*time.Second)
+				var ids []string
+				if st == 200 {
+					json.Unmarshal(body, &ids)
+				}
+				for _, id := range ids {
+					dmu.Lock()
+					seen := done[id]
+					done[id] = true
+					dmu.Unlock()
+					if seen {
+						continue
+					}
+					go func(id string) {
+						_, fetched, _, _ := e.do(e.agPort, "GET", "/agent/request", agentHdr(b.BackendUser, b.ID, id), nil, 0)
+						_, target, _, _ := parseStoredRequest(fetched)
+						tok := strings.TrimPrefix(target, "/ss/")
+						text := append([]byte("answer-for-"+tok+"\n"), pattern(tok, 200+len(tok)*37%4000)...)
+						e.do(e.agPort, "POST", "/agent/response", agentHdr(b.BackendUser, b.ID, id),
+							append([]byte(fmt.Sprintf("HTTP/1.1 200 OK\r\nContent-Length: %d\r\nCache-Control: no-store\r\n\r\n", len(text))), text...), 0)
+					}(id)
+				}
+			}
+		}(b)
+	}
+	var cw sync.WaitGroup
+	for c := 0; c < nclients; c++ {
+		cw.Add(1)
+		go func(c int) {
+			defer cw.Done()
+			b := bs[c%len(bs)]
+			for i := 0; i < each; i++ {
+				rid := fmt.Sprintf("rid-s%d-%d-%d", os.Getpid(), c, i)
+				hdr := map[string]string{"X-Appengine-Request-Log-Id": rid, "X-AppEngine-User-Email": b.EndUser}
+				st, body, _, err := e.do(e.defPort, "POST", "/ss/"+rid, hdr, pattern(rid, 100), 45*time.Second)
+				atomic.AddInt64(&total, 1)
+				want := append([]byte("answer-for-"+rid+"\n"), pattern(rid, 200+len(rid)*37%4000)...)
+				switch {
+				case err != nil || st != 200:
+					atomic.AddInt64(&unanswered, 1)
+					example.Store(fmt.Sprintf("%s: status %d err %v", rid, st, err))
+				case !bytes.Equal(body, want):
+					atomic.AddInt64(&wrong, 1)
+					example.Store(fmt.Sprintf("%s received %q", rid, headOf(body, 60)))
+				}
+			}
+		}(c)
+	}
+	cw.Wait()
+	close(stop)
+	agents.Wait()
+	ex, _ := example.Load().(string)
+	hx.Emit("RelayStress", "requests", total, "wrong", wrong, "unanswered", unanswered, "example", ex)
+	res.Case("stress", map[string]interface{}{"requests": total, "wrong": wrong, "unanswered": unanswered})
 }
